@@ -227,9 +227,9 @@ impl G {
                     let at = if list.is_empty() { 0 } else { ix.index(list.len() + 1) };
                     list.insert(at.min(list.len()), x);
                 }
-                // `NULL IN ()` is not generated: the planner answers NULL for a literal Utf8 NULL needle but FALSE for
+                // `<constant> IN ()` is not generated (the needle may fold to a NULL literal): the planner answers NULL for a literal Utf8 NULL needle but FALSE for
                 // every other NULL needle (and the simplifier folds `x IN ()` to FALSE); SQL has no empty IN list.
-                if list.is_empty() && matches!(e, E::Lit(_, V::Null)) {
+                if list.is_empty() && e.columns().is_empty() {
                     list.push(E::Lit(ty, V::Null));
                 }
                 E::InList { neg, e: bx(e), list }
@@ -408,7 +408,9 @@ impl G {
         }
         if self.cfg.funcs {
             alts.push((1, prop::collection::vec(same.clone(), 1..=3).prop_map(|a| E::Func(Fun::Coalesce, a)).boxed()));
-            alts.push((1, (same.clone(), same.clone(), any::<bool>()).prop_map(|(a, b, n)| E::Func(if n { Fun::NullIf } else { Fun::Nvl }, vec![a, b])).boxed()));
+            // nvl's signature lists booleans, integers, floats and strings only
+            let nvl_ok = !matches!(ty, Ty::Date32 | Ty::Dec);
+            alts.push((1, (same.clone(), same.clone(), any::<bool>()).prop_map(move |(a, b, n)| E::Func(if n || !nvl_ok { Fun::NullIf } else { Fun::Nvl }, vec![a, b])).boxed()));
         }
         let s: S = Union::new_weighted(alts).boxed();
         self.memo.borrow_mut().insert((ty, d, with_leaf), s.clone());
